@@ -546,6 +546,7 @@ fn fault_name(f: &Fault) -> &'static str {
         Fault::MissingValue => "missing-value",
         Fault::BadNumber(_) => "bad-number",
         Fault::BadEnum => "bad-enum",
+        Fault::UnknownUnit(v) if *v >= 128 => "size-overflow",
         Fault::UnknownUnit(_) => "unknown-unit",
         Fault::UnterminatedQuote => "unterminated-quote",
         Fault::OutOfRange(_) => "out-of-range",
@@ -639,7 +640,13 @@ fn apply_fault(r: &mut Rendered, fault: &Fault, pick: u64) -> Option<Expect> {
             Some(Expect::Reject)
         }
         Fault::UnknownUnit(v) => {
-            let bad = ["5X", "5KB", "M", "12T", "3k5", "5 M"][*v as usize % 6];
+            // an unknown unit, or (upper half of the byte) a size that no integer type holds: 2^34 G = 2^64, 2^43 M = 2^53 K = 2^63,
+            // products that wrap to 0, 1 GiB or 1024, a number that is itself too long
+            let bad = if *v < 128 {
+                ["5X", "5KB", "M", "12T", "3k5", "5 M"][*v as usize % 6]
+            } else {
+                ["17179869184G", "17179869185G", "18014398509481985K", "8796093022208M", "9007199254740992K", "99999999999999999999", "9223372036854775807K", "17592186044416m"][(*v as usize - 128) % 8]
+            };
             r.files[fi].1[li].text = format!("{}size {}", indent, bad);
             Some(Expect::SyntaxAt(fi, li + 1))
         }
